@@ -25,9 +25,26 @@ Upgrades(c) == IF c.allowUpgrades /\ c.transport = "polling" THEN {"websocket", 
 \* heartbeat mode: revision 4 = the server pings; revision 3 = the client pings and the server answers with a pong
 ServerPings(c) == Rev(c) = 4
 
+\* a repeated EIO parameter ("3then4" = EIO=3&EIO=4, "4then3"): which value counts is not documented, but the session is of ONE
+\* revision r: the socket's protocol, the payload format of its responses and its heartbeat mode agree, r = 3 needs revision 3
+\* to be allowed, and a handshake may only be refused for the revision when revision 3 is not allowed
+Repeated(c) == c.eio \in {"3then4", "4then3"}
+RepObsOK(c, o) ==
+    IF c.transport \notin EnabledSet(c.enabled) THEN ~o.created /\ o.nconn = 0
+    ELSE IF ~o.created THEN o.nconn = 0 /\ ~c.eio3
+    ELSE /\ o.nconn = 1 /\ o.firstIsOpen /\ o.sidMatch
+         /\ o.pi = c.pi /\ o.pt = c.pt /\ o.maxPayload = c.maxPayload
+         /\ {o.upgrades[i] : i \in 1..Len(o.upgrades)} = Upgrades(c) /\ Len(o.upgrades) = Cardinality(Upgrades(c))
+         /\ o.initial = c.initial /\ o.initialIntact
+         /\ o.proto \in {3, 4} /\ (o.proto = 3 => c.eio3)
+         /\ (o.fmtRev # 0 => o.fmtRev = o.proto) /\ o.payloadFormatOk
+         /\ o.serverPinged = (o.proto = 4)
+         /\ (o.proto = 3 => o.pongForPing)
+
 \* o = observation of the n-th handshake of one server with this configuration (n = 1..3)
 ObsOK(c, o) ==
-    IF ~Admitted(c) THEN ~o.created /\ o.nconn = 0
+    IF Repeated(c) THEN RepObsOK(c, o)
+    ELSE IF ~Admitted(c) THEN ~o.created /\ o.nconn = 0
     ELSE /\ o.created /\ o.nconn = 1                       \* exactly one session, one connection event
          /\ o.firstIsOpen /\ o.sidMatch                      \* first packet = open packet carrying that session's id
          /\ o.pi = c.pi /\ o.pt = c.pt /\ o.maxPayload = c.maxPayload
